@@ -132,14 +132,14 @@ func leanIdent(s string) string {
 
 // fctx: the translation of one function body or one expression of a function.
 type fctx struct {
-	t       *Tr
-	fd      *ast.FuncDecl
-	recv    types.Object // receiver variable (nil for plain functions)
-	recvInt bool         // the receiver itself is an integer (method of a named integer type)
-	fields  map[string]*trParam
-	names   map[types.Object]string
-	free    map[types.Object]*trParam // expression mode only: locals that became parameters
-	exprPos token.Pos                 // expression mode: position of the expression being translated
+	t        *Tr
+	fd       *ast.FuncDecl
+	recv     types.Object // receiver variable (nil for plain functions)
+	recvInt  bool         // the receiver itself is an integer (method of a named integer type)
+	fields   map[string]*trParam
+	names    map[types.Object]string
+	free     map[types.Object]*trParam // expression mode only: locals that became parameters
+	exprPos  token.Pos                 // expression mode: position of the expression being translated
 	exprMode bool
 }
 
@@ -181,11 +181,42 @@ func (c *fctx) constant(e ast.Expr, hint *trType) (string, trType, bool) {
 	return fmt.Sprintf("(%s#%d)", bi.String(), ty.Bits), ty, true
 }
 
+// fresh returns a Lean name for `name` that no visible local, parameter, pseudo-field or free local already has:
+// two Go objects never share a Lean name (Go's block-scoped shadowing must not turn into Lean's lexical shadowing).
+func (c *fctx) fresh(name string) string {
+	n := leanIdent(name)
+	for {
+		used := false
+		for _, v := range c.names {
+			used = used || v == n
+		}
+		for _, f := range c.fields {
+			used = used || f.Name == n
+		}
+		for _, f := range c.free {
+			used = used || f.Name == n
+		}
+		if !used {
+			return n
+		}
+		n += "'"
+	}
+}
+
+// nameOf: the Lean name of a local (allocated at its first binding; re-assignment re-binds the same name).
+func (c *fctx) nameOf(o types.Object) string {
+	if n, ok := c.names[o]; ok {
+		return n
+	}
+	c.names[o] = c.fresh(o.Name())
+	return c.names[o]
+}
+
 func (c *fctx) field(key, name string, ty trType) string {
 	if f, ok := c.fields[key]; ok {
 		return f.Name
 	}
-	c.fields[key] = &trParam{Name: leanIdent(name), T: ty, key: key}
+	c.fields[key] = &trParam{Name: c.fresh(name), T: ty, key: key}
 	return c.fields[key].Name
 }
 
@@ -495,12 +526,7 @@ func (c *fctx) bind(id *ast.Ident, val string, ty trType, rest string) string {
 	if want, ok := c.t.typ(o.Type()); !ok || want != ty {
 		c.t.fail(id, "local is not an integer or bool of the assigned type")
 	}
-	n, ok := c.names[o]
-	if !ok {
-		n = leanIdent(o.Name())
-		c.names[o] = n
-	}
-	return fmt.Sprintf("let %s : %s := %s\n  %s", n, ty.lean(), val, rest)
+	return fmt.Sprintf("let %s : %s := %s\n  %s", c.nameOf(o), ty.lean(), val, rest)
 }
 
 var assignOps = map[token.Token]token.Token{token.ADD_ASSIGN: token.ADD, token.SUB_ASSIGN: token.SUB, token.MUL_ASSIGN: token.MUL,
@@ -540,9 +566,9 @@ func (c *fctx) stmts(list []ast.Stmt, k []ast.Stmt) string {
 			t.fail(x, "declaration")
 		}
 		type b struct {
-			id  *ast.Ident
-			v   string
-			ty  trType
+			id *ast.Ident
+			v  string
+			ty trType
 		}
 		var bs []b
 		for _, sp := range gd.Specs {
@@ -568,6 +594,11 @@ func (c *fctx) stmts(list []ast.Stmt, k []ast.Stmt) string {
 					t.fail(x, "multi-value initialiser")
 				}
 			}
+		}
+		// all initialisers are translated (above) before any of the names exists; objects have distinct Lean names,
+		// so the sequential lets below cannot capture one another
+		for _, b := range bs {
+			c.nameOf(t.p.Info.Defs[b.id])
 		}
 		out := c.stmts(rest, k)
 		for i := len(bs) - 1; i >= 0; i-- {
@@ -659,9 +690,7 @@ func (c *fctx) bindAfter(id *ast.Ident, v string, ty trType, rest, k []ast.Stmt)
 	if o == nil {
 		c.t.fail(id, "unresolved local")
 	}
-	if _, ok := c.names[o]; !ok {
-		c.names[o] = leanIdent(o.Name())
-	}
+	c.nameOf(o) // the name is visible to what follows; the value `v` was translated before
 	return c.bind(id, v, ty, c.stmts(rest, k))
 }
 
@@ -717,7 +746,7 @@ func (t *Tr) newCtx(fd *ast.FuncDecl) (*fctx, []trParam) {
 		if c.recv != nil {
 			if ty, ok := t.typ(c.recv.Type()); ok {
 				c.recvInt = true
-				c.names[c.recv] = leanIdent(c.recv.Name())
+				c.names[c.recv] = c.fresh(c.recv.Name())
 				params = append(params, trParam{Name: c.names[c.recv], T: ty, key: "recv", obj: c.recv})
 			}
 		}
@@ -772,7 +801,7 @@ func (t *Tr) function(lean string, fd *ast.FuncDecl) *trFn {
 		if !ok {
 			t.fail(fd.Name, "parameter %s is not an integer or bool", v.Name())
 		}
-		c.names[v] = leanIdent(v.Name())
+		c.names[v] = c.fresh(v.Name())
 		plain = append(plain, trParam{Name: c.names[v], T: ty, obj: v})
 	}
 	body := c.stmts(fd.Body.List, nil)
@@ -920,7 +949,7 @@ func (c *fctx) freeLocal(id *ast.Ident, v *types.Var) (string, trType) {
 			return s, ty
 		}
 	}
-	p := &trParam{Name: leanIdent(v.Name()), T: ty, pos: v.Pos(), obj: v}
+	p := &trParam{Name: c.fresh(v.Name()), T: ty, pos: v.Pos(), obj: v}
 	c.free[v] = p
 	return p.Name, ty
 }
